@@ -85,7 +85,10 @@ def run(sid, checks, tier='quick'):
         assert rc == 0, out
         rc, out = sh(['git', '-C', wt, 'apply', '--whitespace=nowarn', patch])
         assert rc == 0, out
-        env = dict(os.environ, REPO=wt)
+        # a private copy of the Lean project (tables are regenerated from the changed tree there)
+        lean_copy = wt + '_lean'
+        sh(['cp', '-r', os.path.join(VERIF, 'lean'), lean_copy])
+        env = dict(os.environ, REPO=wt, VERIF_LEAN_DIR=lean_copy, VERIF_OUT_DIR=wt + '_out')
         for c in checks:
             rc, out = sh([os.path.join(VERIF, 'check'), c, '--tier', tier], cwd=VERIF, timeout=3600, env=env)
             vio = [l for l in out.splitlines() if l.startswith('VIOLATION')]
@@ -94,8 +97,8 @@ def run(sid, checks, tier='quick'):
     finally:
         sh(['git', '-C', REPO, 'worktree', 'remove', '--force', wt])
         shutil.rmtree(wt, ignore_errors=True)
-        # tables back to the clean tree
-        sh([PY, os.path.join(VERIF, 'harness', 'gen_tables.py')])
+        shutil.rmtree(wt + '_lean', ignore_errors=True)
+        shutil.rmtree(wt + '_out', ignore_errors=True)
     return results
 
 
